@@ -32,7 +32,7 @@ RULE = ("cases: package configurations; executions: one call per (chunk size, wi
         "(configuration, window, chunk) whose window holds at least one wavelength and whose chunk size is smaller than the number of wavelengths in the window or divides it")
 ASSUMPTIONS = ["all SED files of a package share one wavelength grid", "window ends exactly on a tabulated wavelength are ambiguous"]
 REQUIRED_CLASSES = ['chunk-divides-range', 'chunk-does-not-divide-range', 'chunk==1', 'single-wavelength-window', 'empty-window', 'default-window', 'window-end-on-wavelength',
-                    'permuted-parameter-table', 'multi-aperture', 'sed-files-wav-ascending', 'seds-in-subdirs-and-gz', 'seds-stored-in-erg/cm2/s', 'cube-nearest', 'cube-midway', 'cube-outside', 'cube-wavelength-in-other-unit']
+                    'permuted-parameter-table', 'multi-aperture', 'sed-files-wav-ascending', 'seds-in-subdirs-and-gz', 'seds-stored-in-erg/cm2/s', 'convolved-again-after-listing', 'cube-nearest', 'cube-midway', 'cube-outside', 'cube-wavelength-in-other-unit']
 TIMEOUT = {'quick': 600, 'thorough': 3000}
 
 
@@ -234,6 +234,40 @@ def run_case(ctx, case, rec, d):
                     rec.violation('mono|depends-on-chunk-size', {'window': [None if win[0] is None else list(win[0]), None if win[1] is None else list(win[1])], 'chunk': ch},
                                   {'problem': 'result differs from the default memory limit', 'files_this_chunk': sorted(content), 'files_default': sorted(ref_c)})
             rec.trace()
+        # ---- once per configuration: the package is used for a parameter listing, then convolved again (overwrite):
+        # the rows of the new files must still follow the parameter table
+        if win[0] is None and n_models >= 2 and case['wpart'][0] == 0:
+            try:
+                import sedfitter
+                from sedfitter.fit_info import FitInfo
+                from sedfitter.source import Source
+                from props import _fitcommon as _fc
+                src_ = Source()
+                src_.name = 'lst'
+                src_.valid = np.array([1, 1])
+                src_.flux = np.array([1.0, 2.0])
+                src_.error = np.array([0.1, 0.2])
+                inf_ = FitInfo(src_)
+                inf_.chi2 = np.arange(n_models) * 1.0
+                inf_.av = np.zeros(n_models)
+                inf_.sc = np.zeros(n_models)
+                inf_.model_id = np.arange(n_models)
+                inf_.model_name = np.array(table_order)
+                inf_.meta.model_dir, inf_.meta.filters, inf_.meta.extinction_law = md, [], _fc.law_object('power')
+                sedfitter.write_parameters(inf_, os.path.join(d, 'listing.txt'), select_format=('A', 0))
+                convolve_model_dir_monochromatic(md, overwrite=True)
+                rec.trans(2)
+                rec.cls('convolved-again-after-listing')
+                for fpath in sorted(glob.glob(os.path.join(md, 'convolved', '*.fits'))):
+                    with fits.open(fpath) as h:
+                        rn = [str(x).strip() for x in h['CONVOLVED FLUXES'].data['MODEL_NAME']]
+                    rec.ev()
+                    if rn != table_order:
+                        rec.violation('mono|content|after-listing', {'file': os.path.basename(fpath)}, {'problem': 'rows %r, parameter-table order is %r (convolved after write_parameters had been used on the package)' % (rn, table_order)})
+                        break
+            except Exception as e:
+                from mc.runner import exc_signature
+                rec.violation('mono|after-listing|' + exc_signature(e), {'after_listing': True}, {'type': type(e).__name__, 'msg': str(e)[:300]})
         if not sampled and win[0] is not None and len(must) >= 2:
             rec.sample({'config': {k: v for k, v in case.items()}, 'wavelengths': w_asc, 'window': [lo, hi], 'chunk_sizes_tried': chunks, 'files_expected_for_wavelength_indices': must})
             sampled = True
